@@ -38,3 +38,5 @@ LEVEL_TEXT = ("c14_decision_complete: in every history, any step that takes the 
               "fine-grained system in which handle_select1_or_exit0's two reads and its action are separate steps with arbitrary steps of the other threads in between (the positive reads are "
               "still true when it acts: monotone flags). Tie: forced-schedule sessions on the real Model.")
 LEVEL_NOTE = ("Same models and trusted base as C01 (safety at read granularity, Model/SessionFG.lean; heart beats replayed in trace order at read granularity; hooks; linearisation in vlib/props/session.py). `--sync` shares the code path and is exercised only through select-1/exit-0.")
+
+TECHNIQUE += ' + weak-fairness liveness theorem (c14_fair_decision: the decision is eventually taken and is the prescribed one, Props/C14Fair.lean)'
